@@ -1,4 +1,4 @@
-(* driver_c09.ml — glue for the binary64 instance of the signed-search model (group "c09").
+(* driver_c09.ml — glue for the binary64 instances of the signed-search model and of the tree-based variants (group "c09").
    Weights are read as C99 hex floats (Float64.of_string = float_of_string, exact on hex floats) and every float is
    printed as a hex float (Float64.to_hex_string, "%h"), so the comparison with the harness is bit-exact.
    Must be linked with the ocamlfind package coq-core.kernel (module Float64). Trusted for the correspondence only. *)
@@ -57,4 +57,146 @@ let bidir t b =
   | NotFound -> pr_str b "NF"
   | SearchError -> pr_str b "MODEL-ERROR"
 
-let () = main [ ("signed", signed); ("signed_plain", signed_plain); ("bidir", bidir) ]
+(* ---- tree-based variants (TreesFloatModel.v) ------------------------------------------------------------------- *)
+
+let graph_f t = let (n, es, ws) = next_graph_f t in ({ nv = nat_of_int n; ge = es }, ws)
+
+let lx_err = function
+  | LxFuel -> "MODEL-ERROR fuel" | LxRange -> "MODEL-ERROR range" | LxNotInHeap -> "MODEL-ERROR not-in-heap"
+  | LxNoNode -> "MODEL-ERROR no-node" | LxOk _ -> "ok"
+let cd_err = function
+  | CdTreeErr -> "MODEL-ERROR tree" | CdFvsErr -> "MODEL-ERROR fvs" | CdInconsistent -> "MODEL-ERROR inconsistent"
+  | CdFuel -> "MODEL-ERROR fuel" | CdOk _ -> "ok"
+let tbuilder_of = function "fvs" -> TbFvs | "iso" -> TbIso | "horton" -> TbHorton | s -> failwith ("bad alg " ^ s)
+
+(* trees: <graph> -> the format of harness/c09.cpp kind T *)
+let pr_tree_f b g (tr : Float64.t sp_tree) =
+  pr_str b "T";
+  let n = int_of_nat g.nv in
+  for v = 0 to n - 1 do
+    let vn = nat_of_int v in
+    pr_str b " | ";
+    (match sp_node_of tr vn with
+     | None -> pr_str b "0 - - -"
+     | Some nd ->
+         pr_str b "1 "; pr_f b nd.sn_weight;
+         (match nd.sn_pred with
+          | None -> pr_str b " -1 -1"
+          | Some e ->
+              pr_str b " "; pr_nat b e;
+              (match opposite g e vn with
+               | Some u -> pr_str b " "; pr_nat b u
+               | None -> pr_str b " ?")));
+    pr_str b " "; pr_nat b (sp_first tr vn)
+  done
+
+let trees t b =
+  let (g, ws) = graph_f t in
+  match tf_sptrees_all g ws with
+  | LxOk trs -> pr_str b "ALL"; List.iter (fun tr -> pr_str b " ; "; pr_tree_f b g tr) trs
+  | e -> pr_str b (lx_err e)
+
+(* cands: <graph> <f> picks -> the format of harness/c09.cpp kind C; then " STRICT same|inconsistent|differs|error" (does the
+   generic ISO model, which has no std::map::operator[] default, agree with the builder as executed?) *)
+let pr_cands_f b (trees : Float64.t sp_tree list) (cs : Float64.t cand list) =
+  let ta = Array.of_list trees in
+  pr_str b " "; pr_int b (List.length cs);
+  List.iter (fun c ->
+    pr_str b " "; pr_nat b ta.(int_of_nat c.c_tree).st_src;
+    pr_str b " "; pr_nat b c.c_edge; pr_str b " "; pr_f b c.c_weight) cs;
+  pr_str b " T "; pr_int b (List.length trees);
+  List.iter (fun tr ->
+    pr_str b " "; pr_nat b tr.st_src;
+    List.iter (fun o ->
+      match o with
+      | None -> pr_str b " -2"
+      | Some nd -> (match nd.sn_pred with None -> pr_str b " -1" | Some e -> pr_str b " "; pr_nat b e)) tr.st_nodes) trees
+
+let cands t b =
+  let (g, ws) = graph_f t in
+  let picks = next_list t next_nat in
+  (match tf_horton_cycles g ws with
+   | CdOk (trees, cs) -> pr_str b "H"; pr_cands_f b trees cs
+   | e -> pr_str b ("H " ^ cd_err e));
+  (match tf_fvs_cycles g ws picks with
+   | CdOk (trees, cs) -> pr_str b " F"; pr_cands_f b trees cs
+   | e -> pr_str b (" F " ^ cd_err e));
+  let iso = tf_iso_cycles g ws in
+  (match iso with
+   | CdOk (trees, cs) -> pr_str b " I"; pr_cands_f b trees cs
+   | e -> pr_str b (" I " ^ cd_err e));
+  pr_str b " STRICT ";
+  (match tf_iso_cycles_strict g ws, iso with
+   | CdOk (_, cs), CdOk (_, cs') ->
+       let key c = (int_of_nat c.c_tree, int_of_nat c.c_edge, Float64.to_hex_string c.c_weight) in
+       pr_str b (if List.map key cs = List.map key cs' then "same" else "differs")
+   | CdInconsistent, _ -> pr_str b "inconsistent"
+   | _, _ -> pr_str b "error")
+
+(* run: <alg> <graph> <r> roots <f> picks <c> order -> "RET hex N k CYC (len ids)*k W hex*k FND bits SG (len ids)*k" *)
+let pr_go b r =
+  match r with
+  | GoOk (phases, total, _) ->
+      pr_str b "RET "; pr_f b total; pr_str b " N "; pr_int b (List.length phases); pr_str b " CYC";
+      List.iter (fun p -> pr_str b " "; pr_int b (List.length p.gp_cycle); pr_nats b p.gp_cycle) phases;
+      pr_str b " W"; List.iter (fun p -> pr_str b " "; pr_f b p.gp_weight) phases;
+      pr_str b " FND"; List.iter (fun p -> pr_str b (if p.gp_found then " 1" else " 0")) phases;
+      pr_str b " SG"; List.iter (fun p -> pr_str b " "; pr_int b (List.length p.gp_signed); pr_nats b p.gp_signed) phases
+  | GoNoIndex -> pr_str b "MODEL-NOINDEX"
+  | GoNoCollection -> pr_str b "MODEL-NOCOLLECTION"
+  | GoBadOrder -> pr_str b "MODEL-BADORDER"
+  | GoError k -> pr_str b "MODEL-ERROR "; pr_nat b k
+
+let run t b =
+  let alg = tbuilder_of (next t) in
+  let (g, ws) = graph_f t in
+  let roots = next_list t next_nat in
+  let picks = next_list t next_nat in
+  let order = next_list t next_nat in
+  pr_go b (tf_mcb_sva_trees_go alg g ws roots picks order)
+
+(* lookup: <alg> <q> (<k> ids)*q <graph> <f> picks <c> order -> "L q (F hexw len ids | NF hexw 0)*q" *)
+let lookup t b =
+  let alg = tbuilder_of (next t) in
+  let sets = next_list t (fun t -> next_list t next_nat) in
+  let (g, ws) = graph_f t in
+  let picks = next_list t next_nat in
+  let order = next_list t next_nat in
+  pr_str b "L "; pr_int b (List.length sets);
+  match tf_lookup_direct alg g ws picks order sets with
+  | None -> List.iter (fun _ -> pr_str b " MODEL-NOCOLLECTION") sets
+  | Some answers ->
+      List.iter (fun a ->
+        match a with
+        | TrOk (Some (c, w)) -> pr_str b " F "; pr_f b w; pr_str b " "; pr_int b (List.length c); pr_nats b c
+        | TrOk None -> pr_str b " NF "; pr_f b f64_zero; pr_str b " 0"
+        | _ -> pr_str b " MODEL-ERROR") answers
+
+(* accept: <alg> <graph> <r> roots <f> picks <k> (len ids)*k -> "ACC hex" | "REJ"   (the acceptance model of TreesModel.v over the collection as executed) *)
+let accept t b =
+  let alg = tbuilder_of (next t) in
+  let (g, ws) = graph_f t in
+  let roots = next_list t next_nat in
+  let picks = next_list t next_nat in
+  let cycles = next_list t (fun t -> next_list t next_nat) in
+  match tf_mcb_sva_trees_accept_dflt alg g ws roots picks cycles with
+  | Some w -> pr_str b "ACC "; pr_f b w
+  | None -> pr_str b "REJ"
+
+(* explain: <alg> <graph> <r> roots <f> picks <k> (len ids)*k -> "EXPLAINED bits" (bit j = 1: phase j took the run's cycle,
+   0: the run emitted an empty cycle there and the model's lookup of that phase comes up empty) | "UNEXPLAINED k" *)
+let explain t b =
+  let alg = tbuilder_of (next t) in
+  let (g, ws) = graph_f t in
+  let roots = next_list t next_nat in
+  let picks = next_list t next_nat in
+  let cycles = next_list t (fun t -> next_list t next_nat) in
+  match tf_mcb_sva_trees_explain alg g ws roots picks cycles with
+  | GoOk (phases, _, _) -> pr_str b "EXPLAINED"; List.iter (fun p -> pr_str b (if p.gp_found then " 1" else " 0")) phases
+  | GoError k -> pr_str b "UNEXPLAINED "; pr_nat b k
+  | GoNoIndex -> pr_str b "MODEL-NOINDEX"
+  | GoNoCollection -> pr_str b "MODEL-NOCOLLECTION"
+  | GoBadOrder -> pr_str b "MODEL-BADORDER"
+
+let () = main [ ("signed", signed); ("signed_plain", signed_plain); ("bidir", bidir);
+                ("trees", trees); ("cands", cands); ("run", run); ("lookup", lookup); ("accept", accept); ("explain", explain) ]
